@@ -42,7 +42,7 @@ theorem stepAny_mono (cfg : Cfg) {rec rec' : Pred V → R V} (h : LeRec rec rec'
   · exact leR_refl _
   · exact leR_refl _
   · exact leR_refl _
-  · exact bindR_mono (h _) fun _ => leR_refl _
+  · exact leR_refl _
   · exact leR_refl _
 
 theorem stepNot_mono {rec rec' : Pred V → R V} (h : LeRec rec rec') (q : Pred V) :
